@@ -26,9 +26,18 @@ fn add(ext: &mut Extensions, kind: &str, p: i32, no: bool, tag: usize, log: &Log
     let log = log.clone();
     match kind {
         "prime" => ext.add_prime(
-            prime!(_r, _h, _a, move |log: Log, tag: usize| {
-                log.lock().unwrap().push(format!("prime{tag}"));
-                None
+            // every Prime logs the query it sees; those with an even tag rewrite the URI (they append `~<tag>` to the
+            // query), so the log shows whether a later Prime saw what the earlier ones made of the request
+            prime!(req, _h, _a, move |log: Log, tag: usize| {
+                let seen = req.uri().query().unwrap_or("").to_owned();
+                log.lock().unwrap().push(format!("prime{tag}@{seen}"));
+                if *tag % 2 == 0 {
+                    let mut parts = req.uri().clone().into_parts();
+                    parts.path_and_query = Some(format!("{}?{seen}~{tag}", req.uri().path()).parse().unwrap());
+                    Some(Uri::from_parts(parts).unwrap())
+                } else {
+                    None
+                }
             }),
             id,
         ),
@@ -449,6 +458,21 @@ impl Group for Trace {
             Ok(_) => list(l),
             Err(e) => format!("noresponse {e:?} {}", list(l)),
         }
+    }
+    fn oracle(&self, _ctx: &Ctx, line: &str, out: &str) -> Option<(String, String)> {
+        // a later Prime sees the URI as rewritten by the earlier ones (judged on the log alone)
+        let l = parse_list(out.split(' ').last()?)?;
+        let mut q = String::new();
+        for e in l.iter().filter(|e| e.starts_with("prime")) {
+            let (tag, seen) = e.trim_start_matches("prime").split_once('@')?;
+            if seen != q {
+                return Some((format!("prime-chain:{line}"), format!("Prime {tag} saw the query `{seen}` but the earlier Primes had rewritten it to `{q}`: {out}")));
+            }
+            if tag.parse::<usize>().ok()? % 2 == 0 {
+                q = format!("{q}~{tag}");
+            }
+        }
+        None
     }
     fn nontrivial(&self, _l: &str, o: &str) -> bool {
         o.matches(',').count() >= 3
